@@ -13,8 +13,8 @@
                      model predicts (block structure, sizes, padding, index records, backward size).
                      A mismatch leaves the trace unexplained (reported as DRIFT by the checks).
      Shaped = FALSE  property-level: only the observed records and oracle fields are used; the invariants
-                     T* state the properties on the real output. A violated invariant prints a TVIOL line
-                     (run with -continue so that every run of the batch is judged). *)
+                     T* state the properties on the real output. A violated invariant prints a TVIOL line and is counted;
+                     the postcondition fails when the count is not zero, so every run of the batch is judged. *)
 EXTENDS XzContainer, Json, IOUtils
 CONSTANT Shaped
 Rec == ndJsonDeserialize(IOEnv.TRACE)
@@ -23,7 +23,7 @@ tvars == <<vars, l, obs, run>>
 Ev == Rec[l]
 Is(name) == l <= Len(Rec) /\ Ev.ev = name
 
-TInit == Init /\ l = 1 /\ obs = <<>> /\ run = [id |-> "none", limit |-> 0, dict |-> 0, ended |-> FALSE] /\ TLCSet(1, 1)
+TInit == InitWith([check |-> 0, limit |-> 0, dict |-> 0, hsize |-> 12, cz |-> <<>>]) /\ l = 1 /\ obs = <<>> /\ run = [id |-> "none", limit |-> 0, dict |-> 0, ended |-> FALSE] /\ TLCSet(1, 1) /\ TLCSet(3, 0)
 
 Reset ==
   /\ Is("Reset")
@@ -67,15 +67,16 @@ TSpec == TInit /\ [][TNext]_tvars
 \* ---- property-level invariants on the real output, evaluated in the state after an End event
 AtEnd == l > 1 /\ Rec[l - 1].ev = "End" /\ run.ended
 E == Rec[l - 1]
-Viol(name) == PrintT(<<"TVIOL", name, run.id>>) /\ FALSE
+\* a violated property is reported as a TVIOL line and counted in register 3; the postcondition fails if any was seen
+Viol(name) == PrintT(<<"TVIOL", name, run.id>>) /\ TLCSet(3, TLCGet(3) + 1)
 \* C02 / C03: what the real writer produced is a well-formed .xz file by the format rules alone
 TWellFormed == AtEnd => (WellFormedF(obs) \/ Viol("WellFormed"))
 \* C02: the crate's reader reproduces the input
 TRoundTrip  == AtEnd => ((E.rt_ok /\ E.rt_equal) \/ Viol("RoundTrip"))
 \* C03: the reference accepts the file and reproduces the input
 TRef        == AtEnd => ((E.ref_ok /\ E.ref_equal) \/ Viol("Ref"))
-\* C16: the single-stream reader stopped exactly at the end of the stream
-TConsumed   == AtEnd => ((E.consumed = E.stream_len) \/ Viol("Consumed"))
+\* C16: once the single-stream reader has returned end of stream it stands exactly at the end of the stream
+TConsumed   == AtEnd => ((~E.rt_ok \/ E.consumed = E.stream_len) \/ Viol("Consumed"))
 \* C18: every block <= max(block_size, dict); C02: blocks hold exactly the input
 TSizeLimit  == AtEnd => ((run.limit = 0 \/ \A j \in 1..Len(BlockUs(obs, 1)) : BlockUs(obs, 1)[j] <= Max(run.limit, run.dict)) \/ Viol("SizeLimit"))
 TContent    == AtEnd => ((SumSeq(BlockUs(obs, 1), 1) = E.input_len) \/ Viol("Content"))
@@ -83,6 +84,8 @@ TContent    == AtEnd => ((SumSeq(BlockUs(obs, 1), 1) = E.input_len) \/ Viol("Con
 Track == (IF l > TLCGet(1) THEN TLCSet(1, l) ELSE TRUE)
 Accepted ==
   /\ PrintT(<<"TRACE-REACHED", TLCGet(1) - 1, "OF", Len(Rec)>>)
+  /\ PrintT(<<"TVIOL-COUNT", TLCGet(3)>>)
   /\ IF TLCGet(1) = Len(Rec) + 1 THEN TRUE
      ELSE Print(<<"REJECTED after event", TLCGet(1) - 1, "next", Rec[TLCGet(1)]>>, FALSE)
+  /\ TLCGet(3) = 0
 =============================================================================
